@@ -21,7 +21,8 @@ import (
 //   - the methods (receivers) of the project in the order the API validator visits them (controllers
 //     ordered like GleecePipeline.getControllers, receivers in metadata order), with the verb, the
 //     method's @Route value, the controller's @Route value (the prefix the routers mount it under),
-//     the file and the range of the @Route value;
+//     the file and the range of the @Route value, whether it carries @Hidden (hidden receivers are listed like
+//     any other: every routes template registers them);
 //   - every `route-conflict` diagnostic of the tree Validate() returns, with the controller and receiver
 //     entity that carries it, its file, range and message;
 //   - what paths.FindConflicts itself says about the entries controller route + method route (indices
@@ -40,6 +41,7 @@ type rwMethod struct {
 	Route      string `json:"route"`
 	Prefix     string `json:"prefix"`
 	HasRoute   bool   `json:"has_route"`
+	Hidden     bool   `json:"hidden"` // carries @Hidden: no operation in the specification, registered by the routers all the same
 	File       string `json:"file"`
 	StartLine  int    `json:"start_line"`
 	StartCol   int    `json:"start_col"`
@@ -159,6 +161,7 @@ func rwOne(req rwIn) (o rwOut) {
 				m.Verb = r.Annotations.GetFirstValueOrEmpty(annotations.GleeceAnnotationMethod)
 				m.Route = r.Annotations.GetFirstValueOrEmpty(annotations.GleeceAnnotationRoute)
 				m.File = r.Annotations.FileName()
+				m.Hidden = r.Annotations.GetFirst(annotations.GleeceAnnotationHidden) != nil
 				if a := r.Annotations.GetFirst(annotations.GleeceAnnotationRoute); a != nil {
 					rg := a.GetValueRange()
 					m.HasRoute = true
